@@ -38,6 +38,10 @@ class Service(object):
     self._rec('add', a, b)
     return a + b
 
+  def lock(self, key, timeout):
+    self._rec('lock', key, timeout)
+    return 'locked:%s:%r' % (key, timeout)
+
   def swap(self, p):
     self._rec('swap', p)
     from vlib.gen.verifsvc.ttypes import Pair
@@ -90,11 +94,11 @@ class Service(object):
     return 'extra:' + a[0]
 
 
-def expected_reply(method, args):
+def expected_reply(method, args, kwargs=None):
   """What Service would answer (used by oracles): ('value', v) | ('exc', type, fields)."""
   svc = Service()
   try:
-    return ('value', getattr(svc, method)(*args))
+    return ('value', getattr(svc, method)(*args, **(kwargs or {})))
   except Exception as e:  # noqa
     return ('exc', e)
 
